@@ -236,7 +236,7 @@ def DEC(*names):
 
 PROPS = {
     "C01": {
-        "bridge": RENDER + TABLES + NODES + DEC("Cast", "Match", "Hooks", "Function", "Util"),
+        "bridge": RENDER + TABLES + NODES + DEC("Cast", "Match", "Default", "Hooks", "Function", "Util"),
         "extra_modules": ["Convergen.Props.C04", "Convergen.Props.C16"],
         "sweeps": [sweep_front("mixed", 160, 6000, cats=["body", "slice", "hook", "header", "errflow"], compile=True),
                    sweep_front("matching", 100, 3000, cats=["body", "slice"], compile=True),
@@ -259,7 +259,7 @@ PROPS = {
         "assumptions": ["Go's typing of the emitted fragment is judged by the compiler, not modelled (GoTyping is limited to castNode_sound and the slice decision)"],
     },
     "C02": {
-        "bridge": RENDER + NODES + DEC("Cast", "Match"),
+        "bridge": RENDER + NODES + DEC("Cast", "Match", "Default"),
         "extra_modules": ["Convergen.Props.BuilderInv", "Convergen.Props.Cover", "Convergen.Props.Rooted"],
         "sweeps": [sweep_runtime(60, 1500), sweep_front("nesting", 120, 3000, cats=["body", "slice"]),
                    sweep_front("scoping", 80, 2000, cats=["body", "slice"]),
@@ -310,7 +310,7 @@ PROPS = {
         "assumptions": ["only the two documented spellings of the pure convergen constraint are claimed (compound constraints are outside the stated quantifier)"],
     },
     "C04": {
-        "bridge": RENDER + TABLES + NODES + DEC("Cast", "Util"),
+        "bridge": RENDER + TABLES + NODES + DEC("Cast", "Util", "Default"),
         "sweeps": [sweep_front("matching", 150, 4000, cats=["body", "slice", "stderr"]),
                    sweep_front("plain", 60, 3000, cats=["body", "slice", "stderr"]),
                    sweep_front("mixed", 60, 2000, cats=["body", "slice", "stderr"]),
@@ -327,7 +327,7 @@ PROPS = {
         "assumptions": ["go/types relations are oracle tables (WF of the facts is assumed, not proved)"],
     },
     "C05": {
-        "bridge": RENDER + NODES + DEC("Match"),
+        "bridge": RENDER + NODES + DEC("Match", "Default"),
         "extra_modules": ["Convergen.Props.BuilderInv", "Convergen.Props.Cover"],
         "sweeps": [sweep_front("nesting", 120, 4000, cats=["body", "slice", "stderr"]),
                    sweep_front("plain", 80, 3000, cats=["body", "slice", "stderr"]),
@@ -343,7 +343,7 @@ PROPS = {
         "assumptions": ["go/types relations are oracle tables"],
     },
     "C06": {
-        "bridge": RENDER + TABLES + NODES + DEC("Match", "Option", "Function"),
+        "bridge": RENDER + TABLES + NODES + DEC("Match", "Default", "Option", "Function"),
         "sweeps": [sweep_front("notations", 160, 4000, cats=["body", "slice", "stderr"]),
                    sweep_front("nesting", 80, 2000, cats=["body", "slice", "stderr"]),
                    sweep_front("casefold", 60, 2000, cats=["body", "slice", "stderr"]),
@@ -454,7 +454,7 @@ PROPS = {
         "assumptions": [],
     },
     "C16": {
-        "bridge": RENDER + DEC("Cast"),
+        "bridge": RENDER + DEC("Cast", "Default"),
         "sweeps": [sweep_front("slices", 150, 4000, cats=["slice", "body"]), sweep_runtime(50, 1500)],
         "rule": FRONT_RULE % "slices",
         "explanation": "sliceToSlice decision = spec; no converting loop without :typecast; text of the three statements "
